@@ -8,6 +8,8 @@ construct that is routed to the abort) — anything new is reported.
 NOT decided: unwrap()/expect() on results of internal fallible calls, slice indexing, assert!-stated
 constructor preconditions, termination and stack depth.
 """
+import json
+import os
 import re
 from collections import defaultdict
 
@@ -341,6 +343,7 @@ def run(rep):
     )
     total_sites = 0
     counts = defaultdict(int)
+    old_counts = defaultdict(int)
     for b in mir.bodies:
         sites = abort_calls(mir, b)
         if not sites:
@@ -358,15 +361,23 @@ def run(rep):
                 en, vs = last.split("::", 1)
                 alts = [chain0[:-1] + ["%s::%s" % (en, v)] for v in vs.split("|")]
             for chain in alts:
-                base = "%s|%s|%s" % (nclo(b["path"]), mac, ">".join(chain) if chain else "-")
+                # the key names the variants that SELECT the abort; a default arm (`_ => todo!()`, or the `else` of an `if matches!(..)`) selects nothing by name:
+                # `match f { A => .., _ => todo!() }` and `if !matches!(f, A) { todo!() }` are the same construct
+                named = [c for c in chain if not c.endswith("::_")]
+                base = "%s|%s|%s" % (nclo(b["path"]), mac, ">".join(named) if named else "-")
                 counts[base] += 1
                 key = base if counts[base] == 1 else "%s#%d" % (base, counts[base])
+                if os.environ.get("QV_P1_KEYMAP"):
+                    old_base = "%s|%s|%s" % (nclo(b["path"]), mac, ">".join(chain) if chain else "-")
+                    old_counts[old_base] += 1
+                    with open(os.environ["QV_P1_KEYMAP"], "a") as fh:
+                        fh.write(json.dumps({"old": old_base if old_counts[old_base] == 1 else "%s#%d" % (old_base, old_counts[old_base]), "new": key}) + "\n")
                 where = "%s:%d" % (b["file"], line)
                 rep.instance("P1", key, {"fn": b["path"], "macro": mac, "selected_by": chain, "where": where})
                 rep.violation(
                     "P1",
                     key,
-                    "%s!() reachable (%s) via %s" % (mac, " > ".join(chain) if chain else "unconditional in this path", " -> ".join(x[:90] for x in R.chain(seen, lp[b["path"]])[-4:])),
+                    "%s!() reachable (%s) via %s" % (mac, " > ".join(named) if named else "unconditional in this path", " -> ".join(x[:90] for x in R.chain(seen, lp[b["path"]])[-4:])),
                     where,
                 )
     rep.extra["explicit_abort_sites_in_crate"] = total_sites
